@@ -13,6 +13,59 @@ REALS_AXIOMS = [
 ]
 
 PROPS = {
+    "C08": dict(
+        prop_file="Properties/C08.v",
+        check_module="C08Check",
+        theorems={
+            "C08_resolve_outcomes": [],
+            "C08_resolve_direct_agrees_partial": [],
+            "C08_resolve_direct_miss_partial": [],
+            "C08_duplicate_name_rejected": [],
+            "C08_std_module_rejected": [],
+            "C08_no_main_rejected": [],
+            "C08_bad_function_name_rejected": [],
+            "C08_bad_import_rejected": [],
+            "C08_import_errors": [],
+            "C08_front_end_error": [],
+            "C08_jump_table": [],
+            "C08_call_target_meta": [],
+            "C08_function_label_at_start": [],
+            "C08_label_kept_by_card_labels": [],
+            "C08_label_kept_if_distinct": [],
+            "C08_super_depth_legacy_refuted": [],
+            "C08_import_of_xsuper_repaired": [],
+            "C08_module_import_through_super_repaired": [],
+        },
+        n_quick=320, n_thorough=3000,
+        gates=["obs.ran", "obs.err.InvalidJump", "obs.err.SuperLimitReached", "obs.err.DuplicateModule", "obs.err.NoMain",
+               "obs.err.AmbigousImport", "obs.err.BadImport", "name.absolute", "name.bare", "name.import_fn",
+               "name.import_module", "name.import_module_super", "name.relative", "name.garbage", "site.function_value",
+               "site.static_call", "caller.depth0", "caller.depth1", "caller.depth2", "import.super"],
+        rule="random module trees (depth <= 3, the same six function names reused in every module, sibling / parent / child "
+             "imports of functions and of modules with 0-3 `super.`, too many `super.`, a module called xsuper) with ONE call "
+             "site each (static Call or Function value + DynamicCall, from a function of a random module) naming its target "
+             "absolutely, barely, relatively, through a function import, through a module import, or by garbage; plus planted "
+             "static faults (no main, module named std, duplicate module, malformed / ambiguous import, invalid or duplicate "
+             "function name, small recursion limit). The crate compiles the tree and, on success, the real Vm runs it; every "
+             "generated body stores its position in the compiler's function order, its parameters, and returns a value on even "
+             "positions. Code 1: the compiler model's compile differs from the crate's output (bytecode, data, labels, variables, "
+             "trace, or error + location). Code 2: ResolveSpec.spec_resolve / static_faults (tree level, independent of the model) "
+             "disagree with the error variant or with which body ran, or parameters / return value / caller local are not as the "
+             "convention says (last argument -> first parameter; nil without Return; callee locals invisible). "
+             "non-trivial = tree with >= 2 functions; distinct = distinct case term",
+        trusted_base=COMMON_TB + [
+            "modelled, not verified: compiler.rs resolve_function / super_depth / add_function / compile_stage_2, compiler/module.rs "
+            "(into_ir_stream, flatten_module, execute_imports, is_name_valid, ensure_invariants)",
+            "the specification ResolveSpec.v is a hand-written reading of the documented lookup order",
+            "which body ran is observed through globals written by the generated bodies, on the real Vm (vm.rs), 100000-instruction budget"],
+        assumptions=[
+            "module and function names of generated trees are ASCII identifiers (module names are not validated by the compiler; "
+            "a module name containing '.' makes full names ambiguous and is outside the specification)",
+            "resolve_sound / resolve_complete are proved for the absolute and own-module rules under the hypothesis table_matches "
+            "(jump table = functions of the tree); the import rules are covered by the correspondence run only",
+            "label distinctness (32-bit handles of functions and closures pairwise distinct) is a hypothesis of the label theorems",
+        ],
+    ),
     "C10": dict(
         prop_file="Properties/C10.v",
         check_module="C10Check",
